@@ -312,7 +312,7 @@ CHECKS = {
               'on the order of presentation (uniqueness of sorted permutations); stages that commute with a change of '
               'presentation compose to a pipeline that commutes with it; an exact rigid motion preserves every squared '
               'distance (so C10 bond guessing, C15 elastic network, C18 contacts - which see coordinates only through '
-              'distances - are unaffected) and weighted means move with it (C09 bead positions); together with the '
+              'distances - are unaffected) and weighted means move with it (C09 bead positions); composed (C11/Beads.v): for beads of any number of constituents and any weights, a rigid motion of the atoms keeps every bead and every bead-bead squared distance; together with the '
               'per-property theorems C04 (names and atom order do not matter), C01 (placement order by lowest key), C09, C10, '
               'C15. The composition on the real pipeline is EXPLORED, not proved: paired runs of the real martinize2 command '
               'line in separate processes over presentations (within-residue atom permutations, hydrogen renaming, exact '
